@@ -64,6 +64,7 @@ type cStep struct {
 	Ms      int        `json:"ms"`
 	BadHP   bool       `json:"badhpack"`
 	RawFields bool     `json:"rawfields"` // resp: send Fields exactly (no :status added)
+	Gate      string   `json:"gate"`      // call: hold the write loop at this hook point until an "ungate" step
 }
 
 type cCfg struct {
@@ -134,6 +135,11 @@ type cliRun struct {
 	timeoutHit        bool
 	handshakeErr      string
 	closedByUs        bool
+	// scheduler gate: the client's write loop parks in the named blocking hook until released
+	gatePoint   atomic.Value // string
+	gateHit     chan struct{}
+	gateRelease chan struct{}
+	gated       atomic.Bool
 }
 
 func (r *cliRun) emit(e sEvent) {
@@ -160,7 +166,7 @@ func init() {
 }
 
 func runCliScenario(sc cScenario) (evs []sEvent) {
-	r := &cliRun{sc: sc, reqs: map[int]*cReq{}, sidReq: map[uint32]int{}, recvBody: map[uint32]int{}, sentBody: map[uint32]int{}}
+	r := &cliRun{gateHit: make(chan struct{}, 1), gateRelease: make(chan struct{}, 1), sc: sc, reqs: map[int]*cReq{}, sidReq: map[uint32]int{}, recvBody: map[uint32]int{}, sentBody: map[uint32]int{}}
 	r.unit = sc.Cfg.Unit
 	if r.unit <= 0 {
 		r.unit = 1
@@ -187,6 +193,15 @@ func runCliScenario(sc cScenario) (evs []sEvent) {
 	http2.VerifOnCliInit = func(c *http2.Conn, v *http2.VerifCli) {
 		r.v = v
 		cliRuns.Store(c, r)
+		v.Gate = func(point string, stream uint32) {
+			if p, _ := r.gatePoint.Load().(string); p != "" && p == point {
+				r.gatePoint.Store("")
+				r.gated.Store(true)
+				r.gateHit <- struct{}{}
+				<-r.gateRelease
+				r.gated.Store(false)
+			}
+		}
 		v.OnEvent = func(ev string, stream uint32, n int64) {
 			switch ev {
 			case "wl.idle":
@@ -301,6 +316,7 @@ type cqsnap struct {
 	inTot, inRead, outTot, outRead      int64
 	inIdle, outIdle                     bool
 	rdFrames                            int64
+	gated                               bool
 }
 
 func (r *cliRun) snap() cqsnap {
@@ -319,12 +335,13 @@ func (r *cliRun) snap() cqsnap {
 	q.inIdle = bufA == 0 && parkA > 0
 	q.outIdle = bufB == 0 && parkB > 0
 	q.rdFrames = r.rdFrames.Load()
+	q.gated = r.gated.Load()
 	return q
 }
 
 func (q cqsnap) quiet(readerGone bool) bool {
 	// producers count before the hand-off, the write loop after taking: equality = nothing in between
-	wlOK := q.wlX || (q.wlIdleAt == q.wlTaken && q.inQ == q.wlReq+q.inDrop && q.outQ == q.wlOut+q.outDrop && q.winQ == q.wlWin &&
+	wlOK := q.wlX || q.gated || (q.wlIdleAt == q.wlTaken && q.inQ == q.wlReq+q.inDrop && q.outQ == q.wlOut+q.outDrop && q.winQ == q.wlWin &&
 		q.inLen == 0 && q.outLen == 0 && q.winLen == 0)
 	rlOK := q.rlX || (q.inIdle && q.rlFrames == q.rlDone)
 	peerOK := q.outIdle || readerGone
@@ -634,6 +651,9 @@ func (r *cliRun) stepCall(st *cStep) {
 	}
 	r.emit(sEvent{"k": "call", "req": st.Req, "method": ints([]byte(method)), "path": ints([]byte(path)), "host": ints([]byte("ex.com")),
 		"fields": fields, "bodykind": kind, "n": n})
+	if st.Gate != "" {
+		r.gatePoint.Store(st.Gate)
+	}
 	r.waiters.Add(1)
 	// Write only queues the request (or resolves it when the connection is done); calling it here, not
 	// on the waiter goroutine, means the request is in c.in before quiescence is looked for.
@@ -660,6 +680,15 @@ func (r *cliRun) stepCall(st *cStep) {
 		r.emit(ev)
 		r.resolvedSeen.Add(1)
 	}()
+	if st.Gate != "" {
+		select {
+		case <-r.gateHit:
+			r.emit(sEvent{"k": "note", "what": "gated at " + st.Gate})
+		case <-time.After(2 * time.Second):
+			r.emit(sEvent{"k": "note", "what": "gate not reached"})
+			r.gatePoint.Store("")
+		}
+	}
 	r.quiesce()
 }
 
@@ -937,6 +966,12 @@ func (r *cliRun) step(st *cStep) {
 		r.closedByUs = true
 		r.conn.Close()
 		r.quiesce()
+	case "ungate":
+		if r.gated.Load() {
+			r.emit(sEvent{"k": "note", "what": "ungate"})
+			r.gateRelease <- struct{}{}
+		}
+		r.quiesce()
 	case "cancel":
 		r.reqMu.Lock()
 		rq := r.reqs[st.Req]
@@ -966,6 +1001,9 @@ func (r *cliRun) step(st *cStep) {
 }
 
 func (r *cliRun) finishRun() {
+	if r.gated.Load() {
+		r.gateRelease <- struct{}{}
+	}
 	if !r.timeoutHit && r.handshakeErr == "" {
 		r.quiesce()
 	}
